@@ -157,3 +157,89 @@ def run(tier, seed):
     items = items_for(tier, seed)
     out, errors = par.run(items, export_item)
     return items, out, errors
+
+
+# ---------------------------------------------------------------------------
+# queries must be functions of the graph's CURRENT contents: after in-place edits the answers on the
+# edited object equal the answers on a freshly built copy of the same graph
+def _answers(sc, keys, rng_seed):
+    from numba_scfg.core import transformations as T
+
+    rng = random.Random(rng_seed)
+    out = {}
+    try:
+        out["head"] = sc.find_head()
+    except AssertionError:
+        out["head"] = "AssertionError"
+    subs = [set(rng.sample(keys, rng.randrange(0, len(keys) + 1))) for _ in range(4)]
+    for i, sub in enumerate(subs):
+        try:
+            hs, es = sc.find_headers_and_entries(set(sub))
+            out["he%d" % i] = (sorted(hs), sorted(es))
+        except AssertionError:
+            out["he%d" % i] = "AssertionError"
+        try:
+            xs, es = sc.find_exiting_and_exits(set(sub))
+            out["xe%d" % i] = (sorted(xs), sorted(es))
+        except KeyError:
+            out["xe%d" % i] = "KeyError"
+    for a in keys:
+        for b in keys:
+            out["r%s-%s" % (a, b)] = sc.is_reachable_dfs(a, b)
+    for tag, fn in (("dom", T._doms), ("pdom", T._post_doms)):
+        try:
+            d = fn(sc)
+            out[tag] = {k: sorted(v) for k, v in d.items()}
+            out["i" + tag] = dict(T._imm_doms({k: set(v) for k, v in d.items()}))
+        except RuntimeError:
+            out[tag] = "RuntimeError"
+        except ValueError:
+            out["i" + tag] = "ValueError"
+    out["scc"] = sorted(sorted(c) for c in sc.compute_scc())
+    return out
+
+
+def history_check(tier, seed):
+    """Returns (number of comparisons, violations)."""
+    from numba_scfg.core.datastructures.scfg import SCFG
+    from numba_scfg.core.datastructures.basic_block import BasicBlock
+
+    common.import_repo()
+    rng = random.Random(seed + 1313)
+    violations = []
+    compared = 0
+
+    def build(table):
+        return SCFG({k: BasicBlock(name=k, _jump_targets=tuple(jt)) for k, jt in table.items()})
+
+    for gi in range(60 if tier == "quick" else 1200):
+        n = rng.randrange(2, 8)
+        keys = [str(i) for i in range(n)]
+        table = {k: tuple(dict.fromkeys(rng.choice(keys) for _ in range(rng.choice([0, 1, 2, 2])))) for k in keys}
+        sc = build(table)
+        history = [dict(table)]
+        for step in range(4):
+            qseed = rng.randrange(1 << 30)
+            got = _answers(sc, keys, qseed)
+            want = _answers(build(table), keys, qseed)
+            compared += 1
+            if got != want:
+                bad = sorted(k for k in want if got.get(k) != want.get(k))
+                if len(violations) < 5:
+                    violations.append({"graph_history": [{k: list(v) for k, v in t.items()} for t in history],
+                                       "witness": {"reason": "after in-place edits a query answers differently on the "
+                                                             "edited graph object than on a freshly built copy of the "
+                                                             "same graph", "queries": bad[:4],
+                                                   "edited": {q: got.get(q) for q in bad[:2]},
+                                                   "fresh": {q: want.get(q) for q in bad[:2]}}})
+                break
+            # an in-place edit that keeps the block names: re-target one block
+            k = rng.choice(keys)
+            table[k] = tuple(dict.fromkeys(rng.choice(keys) for _ in range(rng.choice([0, 1, 2]))))
+            blk = sc.graph[k].replace_jump_targets(jump_targets=table[k]) if len(table[k]) == len(sc.graph[k]._jump_targets) \
+                else BasicBlock(name=k, _jump_targets=table[k])
+            if rng.random() < 0.5:
+                sc.graph.pop(k)
+            sc.add_block(blk)
+            history.append(dict(table))
+    return compared, violations
